@@ -672,6 +672,12 @@ def gen_api_ops(rng, npool, nfar, nnear, maxops):
                 op = ['OBS_REPORT', []]
             elif r < 0.28:
                 op = ['COMPUTE', 'steps']
+            elif r < 0.33 and (nfar or nnear):
+                # premature field request: raises or uses stale currents
+                if nfar and (not nnear or rng.random() < 0.5):
+                    op = ['FAR', rng.randrange(nfar), 'x']
+                else:
+                    op = ['NEAR', rng.randrange(nnear), 'x']
             else:
                 op = ['COMPUTE']
         else:
